@@ -110,6 +110,7 @@ import (
 	"google.golang.org/grpc/status"
 
 	"verif/sim/kernel"
+	"verif/sim/lockrt"
 	"verif/sim/oracle"
 	_ "verif/sim/quiet"
 )
@@ -149,7 +150,8 @@ type op struct {
 
 	CallStep, RetStep int
 	CallT, RetT       int64
-	Abandoned         bool // in flight when the witness crashed: result discarded
+	Abandoned         bool        // in flight when the witness crashed: result discarded
+	gone              atomic.Bool // = Abandoned, readable from the operation's own goroutines (lockstep runtime)
 	Checked           bool
 
 	// set by the driver goroutine when it releases the op's statements
@@ -167,6 +169,7 @@ type op struct {
 	Logs      []string
 	Panic     string
 	TxOpen    bool // noted by the driver wrapper
+	Began     bool // has had a pooled connection (lockstep spec: such an operation is not about to queue for one)
 	Committed bool // its COMMIT succeeded on SQLite
 	RealBusy  int
 }
@@ -185,6 +188,8 @@ type World struct {
 	s    *kernel.Sim
 	e    *env
 	prof profile
+	lock bool
+	ls   *kernel.Lockstep // spec C19lock only
 
 	logs     []*logSpec
 	stranger *logSpec // a log the witness is not configured for
@@ -236,12 +241,41 @@ func findingOn(name string) bool {
 // New is the constructor for the kernel.
 func New() kernel.World { return &World{} }
 
+// NewLock: spec C19lock - the same world on the lockstep build (DESIGN §16.1): every mutex operation and statement
+// boundary of the witness and its HTTP layer is a seam, so two Updates interleave not only at SQL statements but
+// between any two statements of the code around them (e.g. between COMMIT and whatever is done after it).
+func NewLock() kernel.World { return &World{lock: true} }
+
+func lockSpecs(specs []kernel.Spec) []kernel.Spec {
+	if !lockrt.Enabled {
+		return specs
+	}
+	return append(specs, kernel.Spec{Prop: "C19lock", Mk: NewLock, Limits: kernel.Limits{MaxSteps: 1600, SettleSteps: 8000}})
+}
+
+func (w *World) lockInit() {
+	if !w.lock || w.s.Timed {
+		lockrt.Install(nil)
+		return
+	}
+	w.ls = kernel.NewLockstep(w.s, true)
+	// operations abandoned by a crash of the witness run on against the dead incarnation: not scheduled any more
+	w.ls.Ended = func(root string) bool {
+		w.mu.Lock()
+		o := w.byParty[root]
+		w.mu.Unlock()
+		return o != nil && o.gone.Load()
+	}
+	lockrt.Install(w.ls.RT)
+}
+
 // Init draws the profile and builds logs, trees, database and witness.
 func (w *World) Init(s *kernel.Sim) {
 	w.s = s
 	t := s.T
 	registerDriver()
 	w.byParty = map[string]*op{}
+	w.lockInit()
 	w.rows = map[string][]byte{}
 	w.accepted = map[int][]acceptedRaw{}
 	w.cosigned = map[string]string{}
@@ -369,6 +403,19 @@ func (w *World) openIncarnation() {
 	w.inc, w.db, w.wit, w.handler = inc, db, wit, witnessx.Handler(wit)
 }
 
+// noteRead is called by the driver wrapper (on the operation's goroutine) when the first row of the operation's
+// "SELECT sth" is fetched: the step at which its transaction read the held STH.
+func (w *World) noteRead(party string) {
+	w.mu.Lock()
+	o := w.byParty[party]
+	w.mu.Unlock()
+	if o != nil && !w.s.Timed {
+		o.mu.Lock()
+		o.SelectStep = w.s.Step()
+		o.mu.Unlock()
+	}
+}
+
 // note is called by the driver wrapper (on the operation's goroutine).
 func (w *World) note(party, ev string) {
 	w.mu.Lock()
@@ -380,7 +427,7 @@ func (w *World) note(party, ev string) {
 	o.mu.Lock()
 	switch ev {
 	case "begin":
-		o.TxOpen = true
+		o.TxOpen, o.Began = true, true
 	case "committed":
 		o.Committed, o.TxOpen = true, false
 	case "end":
@@ -1086,7 +1133,12 @@ func (w *World) launch(o *op) {
 	s := w.s
 	w.active++
 	o.CallStep, o.CallT = s.Step(), int64(2*s.Step())
-	s.Go(func() { w.execute(o) })
+	s.Go(func() {
+		if w.ls != nil {
+			w.ls.RT.SetName(o.Party)
+		}
+		w.execute(o)
+	})
 }
 
 // execute runs one operation against the current witness on the calling goroutine.
@@ -1212,11 +1264,31 @@ func (w *World) markDecision(o *op, p *kernel.Parked, d kernel.Decision) {
 func (w *World) Options(s *kernel.Sim) []kernel.Option {
 	var opts []kernel.Option
 	parked := s.ParkedCalls()
+	// (the lockstep runtime stays on in the settle phase: letting everybody run at once would send several
+	// operations to the connection pool together, and database/sql picks among waiters at random)
 	parkedParty := map[string]bool{}
-	for _, p := range parked {
-		parkedParty[p.Party] = true
-		opts = append(opts, w.relOpt(p, kernel.Decision{Kind: "ok"}, 10))
+	if w.ls != nil {
+		parkedParty = w.ls.RT.BlockedRoots() // waiting for a simulated lock, not for a pooled connection
 	}
+	var sqlParked, lockParked []*kernel.Parked
+	for _, p := range parked {
+		parkedParty[kernel.RootOf(p.Party)] = true
+		if kernel.IsLockSeam(p.Name) {
+			lockParked = append(lockParked, p)
+			continue
+		}
+		sqlParked = append(sqlParked, p)
+		opts = append(opts, w.relOpt(p, kernel.Decision{Kind: "ok"}, 10))
+		w.mu.Lock()
+		o := w.byParty[p.Party]
+		w.mu.Unlock()
+		if o != nil { // parked inside the driver wrapper: it has a pooled connection (with or without a transaction)
+			o.mu.Lock()
+			o.Began = true
+			o.mu.Unlock()
+		}
+	}
+	parked = sqlParked
 	// operations in flight that are not parked are waiting for a pooled connection
 	waiters, openTx := 0, 0
 	for _, o := range w.ops {
@@ -1231,6 +1303,37 @@ func (w *World) Options(s *kernel.Sim) []kernel.Option {
 			openTx++
 		}
 		o.mu.Unlock()
+	}
+	for _, p := range lockParked {
+		// an operation held before it has asked for a connection may be about to queue for one: with somebody
+		// queueing already it stays where it is (database/sql picks among several waiters at random)
+		w.mu.Lock()
+		o := w.byParty[kernel.RootOf(p.Party)]
+		w.mu.Unlock()
+		began := false
+		if o != nil {
+			o.mu.Lock()
+			began = o.Began
+			o.mu.Unlock()
+		}
+		if waiters == 0 || began {
+			opts = append(opts, s.ReleaseOpt(p, kernel.Decision{Kind: "ok"}, w.ls.Weight))
+		}
+	}
+	if os.Getenv("VERIF_DEBUG_OPTS") != "" {
+		fmt.Fprintf(os.Stderr, "step %d faults=%v waiters=%d parked:", s.Step(), s.FaultsOn(), waiters)
+		for _, p := range append(append([]*kernel.Parked{}, sqlParked...), lockParked...) {
+			fmt.Fprintf(os.Stderr, " %s", p.Key)
+		}
+		for _, o := range w.ops {
+			if !o.Checked {
+				fmt.Fprintf(os.Stderr, " [%s began=%v tx=%v]", o.Party, o.Began, o.TxOpen)
+			}
+		}
+		if w.ls != nil {
+			fmt.Fprintf(os.Stderr, " blocked=%v", w.ls.RT.Waiting())
+		}
+		fmt.Fprintln(os.Stderr)
 	}
 	if openTx >= 2 && !w.interleaved {
 		w.interleaved = true
@@ -1296,6 +1399,7 @@ func (w *World) crash() {
 	for _, o := range w.ops {
 		if !o.Checked {
 			o.Abandoned, o.Checked = true, true
+			o.gone.Store(true)
 			w.active--
 			gone = append(gone, o.Party)
 		}
@@ -1315,6 +1419,9 @@ func (w *World) crash() {
 // AfterStep implements kernel.World: row oracle first (it extends the
 // reference model in commit order), then the operations that returned.
 func (w *World) AfterStep(s *kernel.Sim) {
+	if w.ls != nil && w.ls.Check() {
+		return
+	}
 	w.checkRows()
 	if s.Violated() {
 		return
